@@ -59,6 +59,9 @@ CONFIGS = {
     "tuplenode": ("/", "name", None, False),   # the node class is a tuple subclass ("%r" % node must not unpack it)
     "falsy": ("/", "name", None, False),
     "eqhash": ("/", "name", None, False),
+    # a tree built from two node classes with different class-level separators (even indices '/', odd indices '|'):
+    # the separator that counts is the one of the START node's class
+    "mixedsep": ("/", "name", None, False),
 }
 _CLS = {}
 
@@ -95,7 +98,7 @@ def build(m, names, cfg):
     nodes = []
     strnames = []
     for i in range(m.n):
-        nd = cls()
+        nd = node_class("|")() if cfg == "mixedsep" and i % 2 else cls()
         val = names[i]
         if transform == "int":
             val = {"a": 1, "A": 2, "b": 0, "a*": 11}.get(val, 3)
@@ -149,7 +152,9 @@ def check_tree(t, shape, names, cfg, maxcomp, only=None):
     m = tree.Model.from_shape(shape)
     nodes, strnames, sep, attr = build(m, names, cfg)
     idm = tree.IdMap(nodes)
-    paths = paths_for(strnames, sep, maxcomp)
+    sep_of = [type(nd).separator for nd in nodes]
+    paths_by_sep = {s_: paths_for(strnames, s_, maxcomp) for s_ in sorted(set(sep_of))}
+    paths = sorted(set().union(*paths_by_sep.values()))
     resolvers = {(ic, rx): anytree.Resolver(attr, ignorecase=ic, relax=rx) for ic in (False, True) for rx in (False, True)}
     ctx = {"shape": shape, "names": list(names), "config": cfg}
     if RECONF[0]:
@@ -175,7 +180,7 @@ def check_tree(t, shape, names, cfg, maxcomp, only=None):
                 except Exception:  # noqa
                     pass
             for ic in (False, True):
-                exp = ref_get(m, strnames, start, path, sep, ic)
+                exp = ref_get(m, strnames, start, path, sep_of[start], ic)
                 for rx in (False, True):
                     if only and (start, path, ic, rx) != only:
                         continue
@@ -211,13 +216,14 @@ def check_tree(t, shape, names, cfg, maxcomp, only=None):
     for ic in (False, True):
         fold = (lambda s: s.upper()) if ic else (lambda s: s)
         ok = all(len({fold(strnames[c]) for c in m.ch[v]}) == len(m.ch[v]) for v in range(m.n))
-        ok = ok and all(s not in ORDINARY_BAD and sep not in s for s in strnames)
+        ok = ok and all(s not in ORDINARY_BAD and not any(x in s for x in set(sep_of)) for s in strnames)
         if not ok:
             continue
         r = resolvers[(ic, False)]
         for a in range(m.n):
             for b in range(m.n):
                 t.c["theorem_instances"] += 1
+                sep = sep_of[a]
                 ab = sep + sep.join(strnames[v] for v in m.path(b))
                 pa, pb = m.path(a), m.path(b)
                 k = 0
@@ -317,7 +323,7 @@ def plan(tier):
                 (1, 3, NAMES_SMALL, "semicolon", 2), (1, 3, NAMES_SMALL, "doublecolon", 2), (1, 3, NAMES_SMALL, "customattr", 2),
                 (1, 3, NAMES_SMALL, "missingattr", 2), (1, 3, NAMES_SMALL, "intvalues", 2),
                 (1, 3, NAMES_SMALL, "falsy", 2), (1, 3, NAMES_SMALL, "eqhash", 2), (1, 3, NAMES_SMALL, "falsyvalues", 2), (1, 3, NAMES_SMALL, "norepr", 2),
-                (1, 3, ("a", "A", "b"), "wordsep", 2), (1, 3, ("a", "A", "b"), "lettersep", 2), (1, 3, ("a", "A", "b"), "tuplenode", 2),
+                (1, 3, ("a", "A", "b"), "wordsep", 2), (1, 3, ("a", "A", "b"), "lettersep", 2), (1, 3, ("a", "A", "b"), "tuplenode", 2), (1, 4, ("a", "A", "b"), "mixedsep", 2),
                 (2, 3, ("a", "a;b", "b"), "semicolon", 3), (5, 5, ("a", "b"), "doublecolon", 2)]
     else:
         spec = [(1, 4, NAMES_FULL, "default", 3), (5, 5, NAMES_SMALL, "default", 2)] + \
